@@ -432,7 +432,7 @@ def oracle_schema(ctx, label, schema, case, cfgs, model_reqs):
             ctx.fail("deprecated-hidden:%s:%s" % (variant, L.diff_class(p or "")),
                      "with includeDeprecated %s the result is not the standard result minus the deprecated members (at %s)" % (variant, p),
                      dict(detail0, check="deprecated", variant=variant, path=p))
-    n_dep = sum(1 for t in base["__schema"]["types"] for f in (t.get("fields") or []) + (t.get("enumValues") or []) if f["isDeprecated"])
+    n_dep = sum(1 for t in base["__schema"]["types"] for f in (t.get("fields") or []) + (t.get("enumValues") or []) if f.get("isDeprecated"))
     ctx.stat("deprecated-members", n_dep)
 
     # -- (d) disabled: hides every meta field, keeps the ordinary ones -----------------------
